@@ -64,6 +64,8 @@ def select(lst, i):
     if isinstance(i, Fraction) and i.denominator == 1:
         i = int(i)
     if isinstance(i, int):
+        if i >= len(lst) or i < -len(lst):
+            return 0        # out-of-range positions are only evaluated under a false guard (bounds are side obligations at index time)
         return lst[i]
     if not lst:
         raise PyRaise('IndexError', 'index into empty array')
@@ -343,6 +345,21 @@ class Masked(object):
             return t
         return self.count()
 
+    @property
+    def shape(self):
+        return (self.sym_len(),) if self.nd == 1 else (self.count(),)
+
+    @property
+    def ndim(self):
+        return 1
+
+    def rank(self, i):
+        """number of selected entries before position i (1-d, concrete length)"""
+        r = 0
+        for j in range(int(i) if is_conc(i) else self.n):
+            r = sym.add(r, ite(sym.and_(self.mask(j), sym.cmp('<', j, i)), 1, 0))
+        return r
+
     def _same(self, o):
         if o.maskobj is self.maskobj:
             return
@@ -490,7 +507,7 @@ def elementwise(f, *xs, **kw):
     if not any(isinstance(x, ArrBase) for x in xs):
         return f(*xs)
     for x in xs:
-        if not isinstance(x, ArrBase) and not isinstance(x, SV) and not is_conc(x) and not isinstance(x, str):
+        if not isinstance(x, ArrBase) and not isinstance(x, SV) and not is_conc(x) and not isinstance(x, (str, sym.Inf)):
             return NotImplemented
     shape = bshape(*xs)
     fs = [as_fn(x, shape) for x in xs]
@@ -594,6 +611,13 @@ def getitem(a, key):
                 if not dim_eq(d, e):
                     CTX().side('mask-length', sym.cmp('==', d, e))
             if a.ndim == 1:
+                if dim_conc(a.shape[0]) and a.shape[0] <= 64:
+                    mv = [_generic(m.get(i)) for i in range(a.shape[0])]
+                    if all(isinstance(v, (bool, int)) for v in mv):
+                        vals = [a.get(i) for i in range(a.shape[0]) if mv[i]]
+                        return Arr((len(vals),), lambda i, vals=vals: select(vals, i), a.dtype)
+                    if a.shape[0] <= 16:
+                        return compress(a, m)
                 return Masked(a.shape[0], a.snap(), m.snap(), m, a.dtype)
             return Masked(tuple(a.shape), a.snap(), m.snap(), m, a.dtype)
         if m.dtype == 'int':
@@ -668,6 +692,31 @@ def getitem(a, key):
     return v
 
 
+def compress(a, m):
+    """a[m] for a short array (concrete length n) and a symbolic mask: an ordinary array of symbolic length
+    cnt = number of selected entries whose j-th element is the j-th selected entry of a"""
+    n = a.shape[0]
+    af, mf = a.snap(), m.snap()
+    cnt = 0
+    for j in range(n):
+        cnt = sym.add(cnt, ite(mf(j), 1, 0))
+
+    def rank(i):
+        r = 0
+        for j in range(i):
+            r = sym.add(r, ite(mf(j), 1, 0))
+        return r
+
+    def fn(j):
+        r = af(n - 1)
+        for i in range(n - 2, -1, -1):
+            r = ite(sym.and_(mf(i), sym.cmp('==', rank(i), j)), af(i), r)
+        return r
+    out = Arr((cnt,), fn, a.dtype)
+    out.compressed = (mf, n)
+    return out
+
+
 def take(a, idx, axis):
     """a.take(idx, axis) for integer index array idx (concrete shape 1-d)"""
     if idx.ndim != 1:
@@ -710,7 +759,23 @@ def setitem(a, key, val):
             vf = val.src
             a.update(mf, vf)
         elif isinstance(val, ArrBase):
-            raise Unsupported('a[mask] = full array (length must equal count)')
+            if a.ndim == 1 and val.ndim == 1 and dim_conc(a.shape[0]) and a.shape[0] <= 16:
+                n = a.shape[0]
+                vf = val.snap()
+                # the j-th selected position receives val[j]
+                def rank(i):
+                    r = 0
+                    for j in range(n):
+                        r = sym.add(r, ite(sym.and_(mf(j), sym.cmp('<', j, i)), 1, 0))
+                    return r
+                cnt = 0
+                for j in range(n):
+                    cnt = sym.add(cnt, ite(mf(j), 1, 0))
+                if not dim_eq(val.shape[0], cnt):
+                    CTX().side('masked-assignment-length', sym.cmp('==', val.shape[0], cnt))
+                a.update(mf, lambda i: vf(rank(i)))
+            else:
+                raise Unsupported('a[mask] = full array (length must equal count)')
         else:
             a.update(mf, lambda *idx: val)
         return
@@ -833,10 +898,9 @@ def _concrete_items(a, axis=None):
 
 
 class _NP(object):
-    pi = None  # set lazily per context
-    inf = None
     newaxis = None
     float64 = float
+    nan = None   # replaced below by a token
     int32 = 'int32'
     int64 = 'int64'
 
@@ -1745,6 +1809,9 @@ _PI = {}
 
 def pi_const():
     c = CTX()
+    if getattr(c, 'replay', False):
+        import math
+        return Fraction(math.pi)
     p = z3.Real('pi')
     c.axiom(z3.And(p > z3.RealVal('3.14159265358979'), p < z3.RealVal('3.14159265358980')))
     return SV(p)
@@ -1776,10 +1843,19 @@ def trig(name, a):
     if name in ('arcsin', 'arccos'):
         asn, acs = sym.opaque_fn('arcsin', a).t, sym.opaque_fn('arccos', a).t
         c.axiom(z3.Implies(z3.And(t >= -1, t <= 1), z3.And(asn + acs == p.t / 2, acs >= 0, acs <= p.t, asn >= -p.t / 2, asn <= p.t / 2)))
+        c.axiom(z3.And(z3.Implies(z3.And(t > 0, t * t == z3.RealVal('3/4')), z3.And(acs == p.t / 6, asn == p.t / 3)),
+                       z3.Implies(z3.And(t > 0, t * t == z3.RealVal('1/2')), z3.And(acs == p.t / 4, asn == p.t / 4))))
         c.axiom(z3.And(z3.Implies(t == 0, asn == 0), z3.Implies(t == 1, asn == p.t / 2), z3.Implies(t == z3.RealVal('1/2'), asn == p.t / 6),
                        z3.Implies(z3.And(t > 0, t <= 1), asn > 0), z3.Implies(z3.And(t < 1, t >= -1), acs > 0)))
         c.mono_pair('arcsin', t, asn)
     return r
 
 
+class _NaN(object):
+    def __repr__(self):
+        return 'nan'
+
+
 NP = _NP()
+NP.nan = _NaN()
+NP.inf = sym.Inf()
